@@ -12,7 +12,8 @@ import random
 
 from . import common
 
-MODULES = ["CoapVerif.Props.C10"]
+MODULES = ["CoapVerif.Props.C10", "CoapVerif.Props.C10Wiring"]
+GENERATED = ["OptionWiring.lean"]
 KINDS = [("concrete", "5"), ("concrete", "6"), ("concrete6", "5"), ("multicast", "5"), ("multicast", "9"), ("multicast6", "5"),
          ("unspecified", "0"), ("unspecified6", "0"), ("empty", "0")]
 
@@ -93,7 +94,7 @@ def explore(ctx, art):
 
 
 def run(ctx):
-    art = common.standard_prepare(ctx, MODULES, hx=False, test=True, generated=[])
+    art = common.standard_prepare(ctx, MODULES, hx=False, test=True, generated=GENERATED)
     if art.get("test"):
         explore(ctx, art)
     # peer isolation under the servers' own housekeeping: three peers on one real tcp / dtls server (one silent, one
@@ -109,7 +110,7 @@ def run(ctx):
 
 
 def replay(ctx, rep):
-    art = common.standard_prepare(ctx, MODULES, hx=False, test=True, generated=[])
+    art = common.standard_prepare(ctx, MODULES, hx=False, test=True, generated=GENERATED)
     lines = rep.get("input") or []
     if not lines:
         print("replay file names no failing input:", rep.get("no_longer_checks"))
